@@ -111,6 +111,20 @@ def rule_params(repo: Repo, rep: Report, cname: str, param: str) -> int:
 
 
 
+
+def format_guards(fi: FuncInfo):
+    """`if neg_one_format: A else: B` / `if not neg_one_format: B else: A` -> (node, bipolar body A, binary body B)."""
+    out = []
+    for s2 in fi.body:
+        if isinstance(s2, ast.If):
+            t = unparse(s2.test)
+            if t == "neg_one_format":
+                out.append((s2, s2.body, s2.orelse))
+            elif t == "not neg_one_format":
+                out.append((s2, s2.orelse, s2.body))
+    return out
+
+
 def early_returns(rep: Report, fi: FuncInfo, guards) -> int:
     """No return between the conversion to the internal {0,1} form and the conversion back."""
     lo, hi = guards[0].lineno, guards[1].lineno
@@ -137,13 +151,14 @@ def rule_bipolar(rep: Report, fi: FuncInfo) -> int:
     s, d, _ = classify(flag[0].value, ["(x == -1).any()", "torch.any(x == -1)", "(x < 0).any()"])
     rep.add("BIPOLAR", fi, f"format flag: {unparse(flag[0])}", s, d or "bipolar input is recognised by the presence of -1", node=flag[0])
     n += 1
-    guards = [s2 for s2 in fi.body if isinstance(s2, ast.If) and unparse(s2.test) == "neg_one_format"]
+    fg = format_guards(fi)
+    guards = [g[0] for g in fg]
     if len(guards) != 2:
-        rep.violation("BIPOLAR", fi, f"{len(guards)} blocks guarded by neg_one_format", "the conversion to {0,1} and the conversion back must both be present, under the same flag")
+        rep.shape(False, len(guards) == 1, "BIPOLAR", fi, f"{len(guards)} blocks guarded by neg_one_format", "the conversion to {0,1} and the conversion back must both be present, under the same flag", "one of the two alphabet conversions is missing")
         return n + 1
     n += early_returns(rep, fi, guards)
-    to_bin = [x for x in guards[0].body if isinstance(x, ast.Assign)]
-    back = [x for x in guards[1].body if isinstance(x, ast.Assign)]
+    to_bin = [x for x in fg[0][1] if isinstance(x, ast.Assign)]
+    back = [x for x in fg[1][1] if isinstance(x, ast.Assign)]
     if len(to_bin) == 1 and len(back) == 1:
         conv_check(rep, fi, "to binary", to_bin[0].value, "x", {-1: 0, 1: 1}, to_bin[0])
         tgt = unparse(back[0].targets[0])
@@ -304,8 +319,13 @@ def rule_z(repo: Repo, rep: Report) -> int:
             rep.undecided("TRANSITION", fi, f"Z store value: {unparse(v)[:100]}", "not a torch.where")
         else:
             a_zero = isinstance(m["_A"], ast.Call) and call_name(m["_A"]) in ("torch.zeros_like", "torch.zeros") or (isinstance(m["_A"], ast.Constant) and m["_A"].value in (0, 0.0))
-            b_old = unparse(m["_B"]) == unparse(tgt)
-            rep.check(bool(a_zero and b_old), "TRANSITION", fi, f"Z store value: where({unparse(m['_C'])}, {unparse(m['_A'])[:40]}, {unparse(m['_B'])})", "event -> 0, otherwise the old value (1 -> 0 with probability p)", "the Z-channel store does not write `0 where the event fires, else the old value`", node=s)
+            b_inl = Inliner(fi, allow_loop_defs=True).inline(m["_B"])
+            b_old = unparse(m["_B"]) == unparse(tgt) or unparse(b_inl) == unparse(tgt)
+            a_inl = Inliner(fi, allow_loop_defs=True).inline(m["_A"])
+            a_zero = a_zero or (isinstance(a_inl, ast.Call) and call_name(a_inl) in ("torch.zeros_like", "torch.zeros"))
+            a_one = isinstance(a_inl, ast.Call) and call_name(a_inl) in ("torch.ones_like", "torch.ones") or (isinstance(a_inl, ast.Constant) and a_inl.value in (1, 1.0))
+            b_const = isinstance(b_inl, ast.Call) and call_name(b_inl) in ("torch.zeros_like", "torch.zeros", "torch.ones_like", "torch.ones")
+            rep.shape(bool(a_zero and b_old), bool(a_one or b_const), "TRANSITION", fi, f"Z store value: where({unparse(m['_C'])}, {unparse(m['_A'])[:40]}, {unparse(m['_B'])})", "event -> 0, otherwise the old value (1 -> 0 with probability p)", "the Z-channel store does not write `0 where the event fires, else the old value`", node=s)
         n += 1
     rep.floor("Z stores", len(stores), 1)
     ys = [s for s in fi.body if isinstance(s, ast.Assign) and unparse(s.targets[0]) == "y" and not isinstance(s.value, ast.BinOp)]
@@ -325,13 +345,14 @@ def rule_bipolar_z(rep: Report, fi: FuncInfo) -> int:
         s, d, _ = classify(f.value, ["(x == -1).any()", "torch.any(x == -1)", "(x < 0).any()"])
         rep.add("BIPOLAR", fi, f"format flag: {unparse(f)}", s, d or "bipolar input recognised by the presence of -1", node=f)
         n += 1
-    guards = [s2 for s2 in fi.body if isinstance(s2, ast.If) and unparse(s2.test) == "neg_one_format"]
+    fg = format_guards(fi)
+    guards = [g[0] for g in fg]
     if len(guards) != 2:
-        rep.violation("BIPOLAR", fi, f"{len(guards)} blocks guarded by neg_one_format", "conversion to {0,1} and back must both be present under the same flag")
+        rep.shape(False, len(guards) == 1, "BIPOLAR", fi, f"{len(guards)} blocks guarded by neg_one_format", "conversion to {0,1} and back must both be present under the same flag", "one of the two alphabet conversions is missing")
         return n + 1
     n += early_returns(rep, fi, guards)
-    tb = [x for x in guards[0].body if isinstance(x, ast.Assign)]
-    eb = [x for x in guards[0].orelse if isinstance(x, ast.Assign)]
+    tb = [x for x in fg[0][1] if isinstance(x, ast.Assign)]
+    eb = [x for x in fg[0][2] if isinstance(x, ast.Assign)]
     if len(tb) == 1:
         conv_check(rep, fi, "to binary", tb[0].value, "x", {-1: 0, 1: 1}, tb[0])
         n += 1
@@ -339,7 +360,7 @@ def rule_bipolar_z(rep: Report, fi: FuncInfo) -> int:
         s1, d1, _ = classify(eb[0].value, ["x.clone()", "x"])
         rep.add("BIPOLAR", fi, f"binary input: {unparse(eb[0])}", s1, d1 or "used as is", node=eb[0])
         n += 1
-    back = [x for x in guards[1].body if isinstance(x, ast.Assign)]
+    back = [x for x in fg[1][1] if isinstance(x, ast.Assign)]
     if len(back) == 1:
         tgt = unparse(back[0].targets[0])
         conv_check(rep, fi, "back to bipolar", back[0].value, tgt, {0: -1, 1: 1}, back[0])
